@@ -13,6 +13,7 @@ import (
 	"os"
 	"path/filepath"
 	"sort"
+	"sync"
 	"sync/atomic"
 	"time"
 
@@ -39,6 +40,7 @@ type VerifTable struct {
 	T     *tsTable
 	track []verifTracked
 	epoch uint64
+	mu    sync.Mutex // guards track (the queued-publication cases run an operation and a snapshot concurrently)
 }
 
 func verifOption() option {
@@ -65,6 +67,12 @@ func VerifOpenTable(fileSystem fs.FileSystem, root string) *VerifTable {
 }
 
 func (v *VerifTable) trackPW(pw *partWrapper) {
+	v.mu.Lock()
+	defer v.mu.Unlock()
+	v.trackPWLocked(pw)
+}
+
+func (v *VerifTable) trackPWLocked(pw *partWrapper) {
 	v.track = append(v.track, verifTracked{pw: pw, id: pw.ID(), mem: pw.mp != nil, dir: partPath(v.T.root, pw.ID())})
 }
 
@@ -74,6 +82,8 @@ func (v *VerifTable) trackCurrent() {
 		return
 	}
 	defer s.decRef()
+	v.mu.Lock()
+	defer v.mu.Unlock()
 	for _, pw := range s.parts {
 		known := false
 		for _, t := range v.track {
@@ -83,9 +93,15 @@ func (v *VerifTable) trackCurrent() {
 			}
 		}
 		if !known {
-			v.trackPW(pw)
+			v.trackPWLocked(pw)
 		}
 	}
+}
+
+func (v *VerifTable) tracked() []verifTracked {
+	v.mu.Lock()
+	defer v.mu.Unlock()
+	return append([]verifTracked(nil), v.track...)
 }
 
 // Close closes the table and its secondary indexes.
@@ -267,6 +283,22 @@ func (v *VerifTable) CanPublish() bool {
 	return true
 }
 
+// HoldFence takes the publication fence shared, as a two-phase query does (acquireSnapshotPublicationView).
+func (v *VerifTable) HoldFence() { v.T.snapshotPublicationMu.RLock() }
+
+// ReleaseFence releases it.
+func (v *VerifTable) ReleaseFence() { v.T.snapshotPublicationMu.RUnlock() }
+
+// PublicationQueued reports whether a publication (commitSnapshotTransaction) is waiting for the fence: a pending
+// writer makes sync.RWMutex.TryRLock fail.
+func (v *VerifTable) PublicationQueued() bool {
+	if v.T.snapshotPublicationMu.TryRLock() {
+		v.T.snapshotPublicationMu.RUnlock()
+		return false
+	}
+	return true
+}
+
 // Snapshot calls the real TakeFileSnapshot.
 func (v *VerifTable) Snapshot(dst string) (bool, error) { return v.T.TakeFileSnapshot(dst) }
 
@@ -275,7 +307,7 @@ func (v *VerifTable) Settle() bool {
 	deadline := time.Now().Add(30 * time.Second)
 	for {
 		pending := false
-		for _, t := range v.track {
+		for _, t := range v.tracked() {
 			if !t.mem && atomic.LoadInt32(&t.pw.ref) <= 0 && t.pw.removable.Load() {
 				if _, err := os.Stat(t.dir); err == nil {
 					pending = true
@@ -294,8 +326,9 @@ func (v *VerifTable) Settle() bool {
 
 // Refs reports every tracked partWrapper that is still referenced.
 func (v *VerifTable) Refs() []storage.VerifPartInfo {
+	v.trackCurrent()
 	var out []storage.VerifPartInfo
-	for _, t := range v.track {
+	for _, t := range v.tracked() {
 		ref := atomic.LoadInt32(&t.pw.ref)
 		if ref <= 0 {
 			continue
